@@ -1008,3 +1008,177 @@ Proof.
   split; [vm_compute; reflexivity|]. split; [vm_compute; reflexivity|].
   split; vm_compute; reflexivity.
 Qed.
+
+(* ==== lazy accessors (c10-lazy) ==== *)
+(* The LAZY read path, NV.Bcf.Lazy.lazy_read: bcf::io::Reader::read_record into a bcf::Record
+   (Fields::index builds the bounds with consume_string / consume_integers) followed by
+   vcf::variant::RecordBuf::try_from_variant_record, which forces every lazy view.  The model returns a
+   panic outcome where the Rust could panic (every `&buf[s..e]`, Filters' `read_type(..).unwrap()` and
+   `unreachable!()`, `allele_count() - 1`) and is compared byte for byte with the real crates by the
+   `lz` kind of bin/check C10.  v44 = the header's file format is VCF 4.4 or later. *)
+From NV Require Import Bcf.Lazy Bcf.LazyProofs Bcf.LazySiteProofs Bcf.LazyInfoProofs Bcf.LazyFmtProofs
+  Bcf.LazyColProofs Bcf.LazyEagerProofs Bcf.LazyClasses.
+From NV Require Import Bcf.Ints Bcf.Typed Bcf.Strings Bcf.Genotype Bcf.StringMap Bcf.Record Bcf.RecordTyped.
+
+(* (a) TOTALITY: for every byte string, every dictionary, every header typing of the keys and either
+   file format, the lazy path returns a RecordBuf or an error -- never a panic *)
+Theorem c10_lazy_never_panics : forall v44 strings contigs ik fk bs,
+  lazy_read v44 strings contigs ik fk bs <> RPanic.
+Proof. exact lazy_read_never_panics. Qed.
+Print Assumptions c10_lazy_never_panics.
+
+(* what makes it so: the descriptor reader depends on the bytes it consumes only ... *)
+Theorem c10_lazy_read_type_local : forall bs c l r, read_type bs = Some (c, l, r) ->
+  exists d, bs = d ++ r /\ d <> [] /\ forall r', read_type (d ++ r') = Some (c, l, r').
+Proof. exact read_type_local. Qed.
+Print Assumptions c10_lazy_read_type_local.
+
+(* ... and the bounds Fields::index stores are ordered, inside the site buffer, and delimit a FILTER
+   value whose descriptor read_type accepts with an integer (or the missing) type *)
+Theorem c10_lazy_index_bounds : forall sb bd, index_bounds sb = Some bd ->
+  (24 <= length sb)%nat /\ allele_count sb <> 0 /\
+  (fst (b_ids bd) <= snd (b_ids bd))%nat /\ (snd (b_ids bd) <= length sb)%nat /\
+  (fst (b_ref bd) <= snd (b_ref bd))%nat /\ (snd (b_ref bd) <= b_alt_end bd)%nat /\
+  (b_alt_end bd <= b_filters_end bd)%nat /\ (b_filters_end bd <= length sb)%nat /\
+  exists c l r', read_type (firstn (b_filters_end bd - b_alt_end bd) (skipn (b_alt_end bd) sb)) = Some (c, l, r') /\
+                 ((c =? 0) = true \/ width_of_code c <> None).
+Proof. exact index_bounds_ok. Qed.
+Print Assumptions c10_lazy_index_bounds.
+
+(* the two loops of the model that run on a fuel (Samples::series until the block is empty,
+   Filters::indices over chunks) never run out of it: every step consumes a byte, the fuel is the
+   length of the input, and any larger fuel gives the same result *)
+Theorem c10_lazy_fuel_enough :
+  (forall n ns bs f1 f2, (length bs <= n)%nat -> (n <= f1)%nat -> (n <= f2)%nat ->
+     lz_all_series f1 ns bs = lz_all_series f2 ns bs) /\
+  (forall w n bs f1 f2, (length bs <= n)%nat -> (n <= f1)%nat -> (n <= f2)%nat ->
+     lz_filter_entries w f1 bs = lz_filter_entries w f2 bs).
+Proof. exact (conj lz_all_series_fuel lz_filter_entries_fuel). Qed.
+Print Assumptions c10_lazy_fuel_enough.
+
+(* (b) LAZY = EAGER.  For EVERY record the eager read_record_buf accepts, outside the decidable class
+   lazy_agree = false (an empty REF/ALT typed string; a Character / String array with a piece that is
+   not one ASCII byte / that percent-decoding changes / an empty per-sample String array; a zero-length
+   GT series; a per-sample Character whose first byte is not ASCII; bytes after the n_fmt series of the
+   samples block), the lazy path accepts it and builds the same RecordBuf up to trec_norm (a per-sample
+   vector that is one missing entry = the missing value; before VCF 4.4 the first allele's phasing) *)
+Theorem c10_lazy_eq_eager : forall v44 strings contigs ik fk hs bs t,
+  byte_list bs ->
+  dec_record_typed strings contigs ik fk hs bs = ROk t ->
+  lazy_agree strings contigs ik fk hs bs = true ->
+  exists t', lazy_read v44 strings contigs ik fk bs = ROk t' /\ trec_norm v44 t' = trec_norm v44 t.
+Proof. exact lazy_eq_eager. Qed.
+Print Assumptions c10_lazy_eq_eager.
+
+(* per view: the site (reference sequence name, position, quality, IDs, REF, ALT, FILTER, the counts and
+   the INFO bytes), whatever read_site decodes, outside lazy-empty-allele *)
+Theorem c10_lazy_site_eq_eager : forall strings contigs sb h info_bytes,
+  byte_list sb -> dec_head strings contigs sb = Some (h, info_bytes) -> site_alleles_nonempty sb = true ->
+  exists bd,
+    lz_index sb = ROk bd /\ lz_chrom contigs sb = ROk (h_chrom h) /\ lz_pos sb = ROk (h_pos h) /\
+    lz_qual sb = ROk (h_qual h) /\ lz_ids bd sb = ROk (h_ids h) /\ lz_ref bd sb = ROk (h_ref h) /\
+    lz_alts bd sb = ROk (h_alts h) /\ lz_filters strings bd sb = ROk (h_filters h) /\
+    lz_slice (b_filters_end bd) (length sb) sb = ROk info_bytes /\
+    lz_u16 16 sb = ROk (h_n_info h) /\ lz_format_count sb = ROk (h_n_fmt h) /\ lz_sample_count sb = ROk (h_n_sample h).
+Proof.
+  intros strings contigs sb h info_bytes Hb H Hne.
+  destruct (site_agree strings contigs sb h info_bytes Hb H Hne) as [bd Hsv]. exists bd.
+  destruct Hsv. repeat split; assumption.
+Qed.
+Print Assumptions c10_lazy_site_eq_eager.
+
+(* per view: the INFO block -- the eager walk and header dispatch, field by field *)
+Theorem c10_lazy_info_eq_eager : forall strings ik n bs infos r ivs,
+  dec_fields_k strings 1 true n bs = Some (infos, r) ->
+  map_rres (fun kv : name * list N =>
+              match ik (fst kv) with
+              | None => RErr
+              | Some k => rbind (dec_info_kind k (snd kv)) (fun v => ROk (fst kv, v))
+              end) infos = ROk ivs ->
+  forallb (info_plain ik) infos = true ->
+  lz_info_fields strings ik n bs = ROk ivs /\ map fst ivs = map fst infos /\ keys_distinct (map fst infos) = true.
+Proof. exact info_fields_agree. Qed.
+Print Assumptions c10_lazy_info_eq_eager.
+
+(* per view: one FORMAT series of any kind (GT; Integer / Float / Character / String, scalar or array):
+   Series::get(header, i) for i = 0..n_sample-1 is the eager column *)
+Theorem c10_lazy_series_eq_eager : forall v44 fk ns k vb id code len pay ecol,
+  byte_list pay -> read_type vb = Some (code, len, pay) ->
+  eager_column fk ns (k, vb) = ROk ecol -> fmt_plain fk ns (k, vb) = true ->
+  exists lcol, lz_column v44 fk ns k (mk_series id code len pay) = ROk lcol /\
+               map (cell_norm v44) lcol = map (cell_norm v44) ecol.
+Proof. exact column_agree. Qed.
+Print Assumptions c10_lazy_series_eq_eager.
+
+(* per view: genotypes -- parse_genotype_values and the lazy Genotype::iter give the same alleles *)
+Theorem c10_lazy_genotype_eq_eager : forall v44 cell g, byte_list cell ->
+  parse_gt (map (fun b => dec_int W8 [b]) cell) = ROk g ->
+  gt_norm v44 (lz_genotype v44 cell) = gt_norm v44 g.
+Proof.
+  intros v44 cell g Hb H. rewrite (parse_gt_cell cell g Hb H). apply genotype_norm_agree.
+Qed.
+Print Assumptions c10_lazy_genotype_eq_eager.
+
+(* splitting well-formed UTF-8 at an ASCII byte (the comma of the array views) gives well-formed pieces *)
+Theorem c10_lazy_utf8_split : forall p c r, (c < 128)%N ->
+  utf8_valid (p ++ c :: r) = utf8_valid p && utf8_valid r.
+Proof. intros p c r H. apply (utf8_split_ascii (length p)); [apply le_n|exact H]. Qed.
+Print Assumptions c10_lazy_utf8_split.
+
+(* the excluded classes are real: on each, a record the eager reader accepts and the lazy path rejects or
+   reads differently (each witness is also a case of corpus/C10/lazy.case, run against the real crates) *)
+Theorem c10_lazy_empty_allele_refuted :
+  (is_ok (eager KFlag (FInt true) 0 w_empty_ref) = true /\ is_ok (lazy true KFlag (FInt true) w_empty_ref) = true /\
+   agree KFlag (FInt true) 0 w_empty_ref = false /\
+   ~ same true (lazy true KFlag (FInt true) w_empty_ref) (eager KFlag (FInt true) 0 w_empty_ref)) /\
+  (is_ok (eager KFlag (FInt true) 0 w_empty_alt) = true /\ is_err (lazy true KFlag (FInt true) w_empty_alt) = true /\
+   agree KFlag (FInt true) 0 w_empty_alt = false).
+Proof. exact (conj lazy_empty_ref_refuted lazy_empty_alt_refuted). Qed.
+Print Assumptions c10_lazy_empty_allele_refuted.
+
+Theorem c10_lazy_samples_trailing_bytes_refuted :
+  (is_ok (eager KFlag (FInt true) 0 w_trailing) = true /\ is_err (lazy true KFlag (FInt true) w_trailing) = true /\
+   agree KFlag (FInt true) 0 w_trailing = false) /\
+  (is_ok (eager KFlag (FInt true) 1 w_trailing_series) = true /\ is_ok (lazy true KFlag (FInt true) w_trailing_series) = true /\
+   agree KFlag (FInt true) 1 w_trailing_series = false /\
+   ~ same true (lazy true KFlag (FInt true) w_trailing_series) (eager KFlag (FInt true) 1 w_trailing_series)).
+Proof. exact (conj lazy_trailing_bytes_refuted lazy_trailing_series_refuted). Qed.
+Print Assumptions c10_lazy_samples_trailing_bytes_refuted.
+
+Theorem c10_lazy_gt_zero_length_refuted :
+  is_ok (eager KFlag (FInt true) 1 w_gt_zero) = true /\ is_ok (lazy true KFlag (FInt true) w_gt_zero) = true /\
+  agree KFlag (FInt true) 1 w_gt_zero = false /\
+  ~ same true (lazy true KFlag (FInt true) w_gt_zero) (eager KFlag (FInt true) 1 w_gt_zero).
+Proof. exact lazy_gt_zero_length_refuted. Qed.
+Print Assumptions c10_lazy_gt_zero_length_refuted.
+
+Theorem c10_lazy_string_arrays_refuted :
+  (is_ok (eager (KStr true) (FInt true) 0 w_percent) = true /\ is_ok (lazy true (KStr true) (FInt true) w_percent) = true /\
+   agree (KStr true) (FInt true) 0 w_percent = false /\
+   ~ same true (lazy true (KStr true) (FInt true) w_percent) (eager (KStr true) (FInt true) 0 w_percent)) /\
+  (is_ok (eager (KChar true) (FInt true) 0 w_chars) = true /\ is_err (lazy true (KChar true) (FInt true) w_chars) = true /\
+   agree (KChar true) (FInt true) 0 w_chars = false) /\
+  (is_ok (eager KFlag (FStr false) 1 w_empty_cell) = true /\ is_ok (lazy true KFlag (FStr false) w_empty_cell) = true /\
+   agree KFlag (FStr false) 1 w_empty_cell = false /\
+   ~ same true (lazy true KFlag (FStr false) w_empty_cell) (eager KFlag (FStr false) 1 w_empty_cell)).
+Proof. exact (conj lazy_percent_escape_refuted (conj lazy_char_piece_refuted lazy_string_array_empty_refuted)). Qed.
+Print Assumptions c10_lazy_string_arrays_refuted.
+
+(* the other direction does not hold either: records the lazy path accepts and the eager reader rejects
+   (n_sample above the header's sample count; a zero-length FILTER vector) *)
+Theorem c10_lazy_accepts_more_than_eager :
+  (is_err (eager KFlag (FInt true) 0 w_more_samples) = true /\ is_ok (lazy true KFlag (FInt true) w_more_samples) = true) /\
+  (is_err (eager KFlag (FInt true) 0 w_filter_len0) = true /\ is_ok (lazy true KFlag (FInt true) w_filter_len0) = true).
+Proof. exact (conj lazy_accepts_sample_count_eager_rejects lazy_accepts_empty_filter_vector_eager_rejects). Qed.
+Print Assumptions c10_lazy_accepts_more_than_eager.
+
+(* non-vacuity: a record with IDs, an ALT, a FILTER, an INFO String array, GT and a per-sample String
+   array over two samples under a VCF 4.3 header lies inside the class, is accepted by both paths, the
+   two RecordBufs are equal up to trec_norm -- and are NOT equal as they stand (the first allele's
+   phasing and the `.` cell), so the normal form is needed *)
+Example c10_lazy_eq_eager_example :
+  agree (KStr true) (FStr false) 2 w_good = true /\ is_ok (eager (KStr true) (FStr false) 2 w_good) = true /\
+  same false (lazy false (KStr true) (FStr false) w_good) (eager (KStr true) (FStr false) 2 w_good) /\
+  lazy false (KStr true) (FStr false) w_good <> eager (KStr true) (FStr false) 2 w_good.
+Proof. exact lazy_agree_nonvacuous. Qed.
+(* ==== end lazy ==== *)
